@@ -9,6 +9,28 @@ CLAIMED = {
    technique="Coq proof by induction (transducer/receiver simulation with owed-output invariant) + checked correspondence",
    design="8/C03"),
 }
+CLAIMED.update({
+ "C15": dict(
+   text="Coq theorems about an executable model of parse_response (nom streaming combinators transcribed with their four-way outcome), read_line/read_response and ServerInfo::from_response: C15_sound (anything accepted is exactly one RFC 5321 4.2 reply and the unread rest is exactly what followed), C15_roundtrip (every well-formed reply value renders and parses back, any number/length of lines), C15_classes (the digits alone decide positive/transient/permanent; never a panic), C15_eof_no_wait. Tied to /repo by an exhaustive 12-symbol sweep of the parser through a hook, an independent python RFC recogniser on the implementation's verdicts, and TCP replays of reply streams under whole/byte-at-a-time/random segmentations for the sync and tokio clients.",
+   note="Trusted: Coq kernel, extraction, drivers, transcription of nom 8 streaming tag/take_until/many0/alt/complete/peek and of BufReader::read_line (std; modelled, its buffering exercised over TCP, not proved). Segmentation independence is by construction of the model (reads see the concatenated stream) and is tied by the TCP replays. No axioms.",
+   technique="Coq proof (parser soundness + completeness by induction over lines) + exhaustive differential correspondence",
+   design="8/C15"),
+ "C05": dict(
+   text="Coq theorem C05_send about the executable client model, for every envelope, message, connection state and every peer script: success means exactly MAIL, RCPT*, DATA, content were written once each in order and a positive reply was read; failure is a local refusal with nothing written, or a prefix of that sequence followed by exactly QUIT with the connection marked broken and the error carrying the reply's class/code/text; never a panic; hence at most one transmission and no content after a refusal. Tied to /repo by the exhaustive single-fault table (position x 15 server actions x 1..3 recipients) and seeded multi-fault scripts run on model, sync and tokio clients with byte-exact transcripts, plus an independent python oracle on the implementation's outcomes.",
+   note="Trusted: as C15, plus the scripted peer. The model abstracts TCP to 'chunk k is delivered after the k-th client unit'; hard resets (RST) are not modelled, only half-close. Blocking reads (stalls) belong to C20. No axioms.",
+   technique="Coq proof (invariant over the transaction's guarded steps) + fault-table differential correspondence",
+   design="8/C05"),
+ "C04": dict(
+   text="Coq theorems: C04_order_and_envelope (same statement as C05_send: the written units are a prefix of MAIL FROM:<rp> opts, RCPT TO:<a_i> in order, DATA, content, byte-identical to the envelope, then QUIT iff failed), C04_ext_iff (BODY=8BITMIME iff non-ASCII content, SMTPUTF8 iff non-ASCII address; missing extension => nothing written), C04_rcpt_single_line, C04_xtext (xtext values decode to the value under an RFC 3461 decoder, all ASCII strings) and C04_xtext_line_safe. Tied to /repo by an envelope x content x extension x refusal matrix run on model/sync/tokio with byte-exact transcripts, an independent RFC 5321 command-stream acceptor on the real clients' bytes, and an exhaustive per-byte xtext sweep.",
+   note="Trusted: as C05. 'Waits for the greeting / one command at a time' is by construction of command = write;read in the model and is observed by the scripted peer (strict alternation of its log). Hello names / custom keywords with CR/LF (caller-supplied, unvalidated) are outside the theorems (premise line_safe). xtext of non-ASCII values passes UTF-8 through (RFC 6533 context) and is not covered by C04_xtext. No axioms.",
+   technique="Coq proof + matrix differential correspondence + independent acceptor",
+   design="8/C04"),
+ "C14": dict(
+   text="Coq theorems: C14_choice (first preferred mechanism that is advertised), C14_only_credentials (for all credentials, preference lists and peer scripts auth() writes nothing if no mechanism is common, else the initial AUTH line, then at most ten lines each the base64 of exactly the user name or password - LOGIN only - then possibly QUIT; never panics), C14_initial_lines (RFC 4616 / LOGIN / XOAUTH2 strings), C14_b64_roundtrip (all byte strings), C14_login (prompt table, any letter case, nothing sent otherwise). Tied to /repo by the negotiation table and challenge scripts on model/sync/tokio, an oracle that base64-decodes what the real clients sent, and sweeps of Mechanism::response and base64.",
+   note="Trusted: as C05; the base64 crate is modelled (RFC 4648 strict) and swept. Secrecy of Debug/Display output is tested by the harness, not proved. URL credential percent-decoding is not modelled. No axioms.",
+   technique="Coq proof (induction over the challenge loop; base64 arithmetic) + differential correspondence",
+   design="8/C14"),
+})
 NOT_YET = {}
 props = [json.loads(l) for l in open(os.path.join(V, "properties.jsonl"))]
 checks = []
